@@ -67,32 +67,32 @@ Section CallsProofs.
   Qed.
 
   (* ------------------------------------------------------------------ estimate for several individuals *)
-  Lemma estimate_at_untouched l tvar modelvar q :
-    forallb (untouched_ev V) (estimate_at V l tvar modelvar q) = true
-    /\ forallb (nodraw_ev V) (estimate_at V l tvar modelvar q) = true.
+  Lemma estimate_at_untouched l tvar outs q :
+    forallb (untouched_ev V) (estimate_at V l tvar outs q) = true
+    /\ forallb (nodraw_ev V) (estimate_at V l tvar outs q) = true.
   Proof.
-    unfold estimate_at, sets. split; simpl; (apply forallb_app_true; [apply forallb_map_true; auto | reflexivity]).
+    unfold estimate_at, sets. split; simpl; (apply forallb_app_true; apply forallb_map_true; auto).
   Qed.
 
-  Lemma estimate_many_untouched tvar modelvar reqs : forall l,
-    forallb (untouched_ev V) (estimate_many V l tvar modelvar reqs) = true
-    /\ forallb (nodraw_ev V) (estimate_many V l tvar modelvar reqs) = true.
+  Lemma estimate_many_untouched tvar outs reqs : forall l,
+    forallb (untouched_ev V) (estimate_many V l tvar outs reqs) = true
+    /\ forallb (nodraw_ev V) (estimate_many V l tvar outs reqs) = true.
   Proof.
     induction reqs as [|q t IH]; intros l; [split; reflexivity|].
-    destruct (estimate_at_untouched l tvar modelvar q) as (A & B). destruct (IH (S l)) as (C & D).
+    destruct (estimate_at_untouched l tvar outs q) as (A & B). destruct (IH (S l)) as (C & D).
     simpl estimate_many. split; apply forallb_app_true; auto.
   Qed.
 
   Lemma estimate_many_one tvar modelvar tin ips :
-    estimate_many V 0 tvar modelvar [(tin, ips)] = estimate_script V tvar modelvar tin ips.
+    estimate_many V 0 tvar [modelvar] [(tin, ips)] = estimate_script V tvar modelvar tin ips.
   Proof. unfold estimate_many, estimate_at, estimate_script, sets. simpl. rewrite app_nil_r. reflexivity. Qed.
 
   (* the model's State OBJECT is exactly what it was, `model.state` still points to it, no generator moved *)
-  Theorem estimate_many_pure tvar modelvar reqs s p c' :
-    api_call (estimate_many V 0 tvar modelvar reqs) s p = Some c' ->
+  Theorem estimate_many_pure tvar outs reqs s p c' :
+    api_call (estimate_many V 0 tvar outs reqs) s p = Some c' ->
     nth_error (cS c') 0 = Some s /\ cCur c' = 0 /\ cPos c' = p.
   Proof.
-    intros H. destruct (estimate_many_untouched tvar modelvar reqs 0) as (Hu & Hn).
+    intros H. destruct (estimate_many_untouched tvar outs reqs 0) as (Hu & Hn).
     destruct (clones_only_pure _ s p c' Hu H) as (A & B). split; auto. split; auto.
     unfold ApiModel.api_call in H. apply (nodraw_exec V sread swrite sclone tracked tape seed_pos _ _ _ _ Hn H).
   Qed.
